@@ -501,6 +501,7 @@ def r5_nfallback(repo, report):
 
     rows = explore(repo, strip_docstring(ln.body), {"self": Obj("self", nonnull=True), lps[1]: Obj("AFFIX", nonnull=True)}, call_hook=hook, inline=False)
     bad = []
+    partial = []
     K = "self._index[AFFIX.replace('N', 'A')]"
     for r in rows:
         hk = r.valuation.get(f"haskey:{K}")
@@ -518,9 +519,19 @@ def r5_nfallback(repo, report):
         if r.valuation.get("isnone:REMATCH"):
             if ret != "None":
                 bad.append(("failed re-alignment", ret))
-        elif ret != f"({K}[0], REMATCH.errors, REMATCH.score)":
-            bad.append(("result", ret))
-    report.ob("C08.R5", "_lookup_with_n", not bad and len(rows) == 3, facts={"paths": len(rows), "problems": [str(b)[:240] for b in bad[:2]]},
+        elif ret != "None":
+            if ret != f"({K}[0], REMATCH.errors, REMATCH.score)":
+                bad.append(("result", ret))
+            # the caller builds the match over the WHOLE affix (rstop = length): the re-alignment must have consumed all of it
+            from ..absint import entails
+
+            whole = entails(r.valuation, ast.Eq(), Lin.atom("REMATCH.rstop") - Lin.atom("REMATCH.rstart"), Lin.atom("len(AFFIX)"))
+            if whole is not True:
+                partial.append(r.describe()["valuation"])
+    report.ob("C08.R5", "_lookup_with_n: the re-aligned match spans the whole affix", not partial, facts={"accepting_paths_without_the_check": partial[:2]},
+              expected="a result is returned only if match.rstop - match.rstart == len(affix); otherwise None (the shorter length is looked up in its own turn)", loc=repo.loc(ln), fact_key="n-realign-partial" if partial else None,
+              why="" if not partial else "the candidate adapter may align to only a part of the affix (e.g. ACGTACGTAC in ACGTACGTACN), but the caller reports the whole affix as removed with the errors of the part: -g ^ACGTACGTAC -g ^TTGGCCAATT on ACGTACGTACNGGGG removes 11 bases and reports 0 errors")
+    report.ob("C08.R5", "_lookup_with_n", not bad and len(rows) >= 3, facts={"paths": len(rows), "problems": [str(b)[:240] for b in bad[:2]]},
               expected="candidate = index[affix with N -> A]; re-align candidate adapter with the real affix; (adapter, match.errors, match.score) or None", loc=repo.loc(ln), cases=len(rows), why=str(bad[0])[:200] if bad else "")
 
 
